@@ -177,6 +177,18 @@ def positions(pf, cn, L, rng, n):
     out.append(("upper domain face", hi))
     out.append(("first half cell of the domain", lo + 0.2 * dxL))
     out.append(("last half cell of the domain", hi - 0.3 * dxL))
+    # per level: the half cell (of THAT level) on either side of a face shared by two boxes of that level stacked along
+    # the normal -- the plane needs the first/last sample of the neighbouring box of the same level
+    gaps = []
+    for lv in range(L + 1):
+        los = {b[0][cn] for b in pf.levels[lv]}
+        shared = sorted({b[1][cn] + 1 for b in pf.levels[lv]} & los)
+        if shared:
+            f = pf.geo_lo[cn] + rng.choice(shared) * pf.dx(lv)[cn]
+            gaps.append((f"level-{lv} half-cell gap below a face shared by two level-{lv} boxes", f - 0.3 * pf.dx(lv)[cn]))
+            gaps.append((f"level-{lv} half-cell gap above a face shared by two level-{lv} boxes", f + 0.3 * pf.dx(lv)[cn]))
+    out += gaps
+    nhead = len(out)
     for f in rng.sample(inner, min(len(inner), 3)):
         out.append(("on an interior box face", f))
         out.append(("half-cell gap below a box face", f - 0.3 * dxL))
@@ -188,7 +200,7 @@ def positions(pf, cn, L, rng, n):
     out.append(("a level-0 cell centre", lo + (k0 + 0.5) * dx0))
     for _ in range(3):
         out.append(("random", lo + rng.random() * (hi - lo)))
-    head, tail = out[:5], out[5:]
+    head, tail = out[:nhead], out[nhead:]
     rng.shuffle(tail)
     return (head + tail)[:n] if n < len(out) else out
 
